@@ -93,12 +93,10 @@ func Run(ops []Op, opt RunOpts) *History {
 				}
 			}
 		}
-		if opt.Immutability && h.Change == nil {
-			if opt.TouchAll {
-				for _, v := range pool {
-					Touch(v)
-				}
-			}
+		stop := false
+		if opt.Immutability && o.Kind != "Lit" {
+			// every value obtained before this step must look exactly as it did before the step
+			// (a Lit step only runs the harness's own construction of a fresh literal: no operation)
 			for j, v := range pool {
 				now := Snapshot(v)
 				if !now.Equal(snaps[j]) {
@@ -115,11 +113,27 @@ func Run(ops []Op, opt RunOpts) *History {
 					break
 				}
 			}
+			stop = h.Change != nil
 		}
 		pool = append(pool, res)
 		snaps = append(snaps, snap)
 		if opt.Immutability {
 			texts = append(texts, TextsOf(res, snap))
+			if opt.TouchAll && !stop && snap.Clean() {
+				// the read-only operations (type inference, printing, hashing, serializing) fill the lazy
+				// caches of the new value; they must not change what it contains
+				Touch(res)
+				if now := Snapshot(res); !now.Equal(snap) {
+					h.Change = &Change{Step: i, Value: i, What: "walk (after the read-only operations)", Before: snap.String(), After: now.String()}
+					stop = true
+				}
+			}
+		}
+		// a nil element or a cycle (possible only on a defective tree): no further operation is applied,
+		// printing or hashing such a value may not return
+		if stop || !snap.Clean() {
+			h.Ops = ops[:i+1]
+			break
 		}
 	}
 	h.Ambiguous = ref.Ambiguous
